@@ -1,6 +1,7 @@
 #!/usr/bin/env python3
 """(re)generate /verif/MANIFEST.json from the table below; properties without a check go to not_applicable"""
 import json
+CL = 'suite `clone`: wrapper histories with dill round-trips inserted; the copy must equal the original at the round-trip (info, cache, archive, parked archive, configuration) and then continue exactly as Lean model M3 predicts for the original; independence of the original checked after every later operation'
 props = [json.loads(l) for l in open('/verif/properties.jsonl')]
 W = 'suite `wrapper`: seeded histories on all 12 decorator classes x maxsize x purge x 10 backends x 8 keymaps, compared with Lean model M3 on the property projection'
 CLAIMED = {
@@ -22,6 +23,8 @@ CLAIMED = {
          'the Python handler structure (exception in an except-handler is not caught by a sibling bare except) is encoded in the model and checked by correspondence', '5 C16'),
  'C18': ('Klepto.C18: lookup is pure and returns the resident value or KeyError; lookups invisible to later behaviour; key is the slot of the call (thin: one key function in the model); ' + W + ' incl. f.key()/f.lookup() interleavings invisible to the model',
          'the 36 duplicated key sites are compared behaviourally (f.key vs. key stored by the call), not proved equal', '5 C18'),
+ 'C20': ('Klepto.C20 (thin, by construction of a value-semantic model): lock-step = determinism of step, independence and shared-store statements on a two-wrapper model; decided mainly by ' + CL,
+         'dill fidelity is a runtime fact checked only by the suite; sqlite-backed caches cannot be pickled at all (outside "picklable backends"); raw keymaps with ignore/sentinel (identity-compared NULL objects, F24) are not generated yet', '5 C20'),
 }
 checks = []
 for p in props:
